@@ -127,8 +127,7 @@ func (te *TypeEnv) ensureBox(s string) {
 	n := sanitize(s)
 	te.decls = append(te.decls,
 		fmt.Sprintf("(declare-fun box_%s (%s) Box)", n, s),
-		fmt.Sprintf("(declare-fun unbox_%s (Box) %s)", n, s),
-		fmt.Sprintf("(assert (forall ((x %s)) (! (= (unbox_%s (box_%s x)) x) :pattern ((box_%s x)))))", s, n, n, n))
+		fmt.Sprintf("(declare-fun unbox_%s (Box) %s)", n, s))
 }
 
 // ---- map instructions
